@@ -5,6 +5,7 @@
 //
 //   c12_tsan <repetitions>
 #include <bxdecay0/bb.h>
+#include <bxdecay0/dbd_gA.h>
 #include <bxdecay0/decay0_generator.h>
 #include <bxdecay0/event.h>
 #include <bxdecay0/fermi.h>
@@ -151,6 +152,60 @@ int main(int argc, char ** argv)
     });
     for (auto & t : th) t.join();
     if (!ga_saved.empty()) setenv("BXDECAY0_DBD_GA_DATA_DIR", ga_saved.c_str(), 1);
+  } else if (group == 6) {
+    // the very first resource access of the process is a gA initialisation that fails (dataset directory given, table absent):
+    // afterwards, and at the same time from other threads, generators that read the resource lists must still initialise
+    const char * ga0 = getenv("BXDECAY0_DBD_GA_DATA_DIR");
+    std::string ga_saved = ga0 ? ga0 : "";
+    setenv("BXDECAY0_DBD_GA_DATA_DIR", "/nonexistent-bxdecay0-ga-dir", 1);
+    auto failing = [] {
+      for (int m = 0; m < 2; m++) {
+        try {
+          bxdecay0::dbd_gA g;
+          g.set_nuclide("Mo100");
+          g.set_process(bxdecay0::dbd_gA::PROCESS_G0);
+          g.set_shooting(m ? bxdecay0::dbd_gA::SHOOTING_REJECTION : bxdecay0::dbd_gA::SHOOTING_INVERSE_TRANSFORM_METHOD);
+          g.initialize();
+        } catch (std::exception &) {
+        }
+      }
+    };
+    failing(); // first, alone
+    {
+      std::vector<std::thread> th;
+      th.emplace_back(failing);
+      th.emplace_back([] { generator_body(1, true, "Mo100", 0, 1, false); });
+      th.emplace_back([] { generator_body(2, true, "Cd106", 0, 9, false); });
+      for (auto & t : th) t.join();
+    }
+    if (!ga_saved.empty()) setenv("BXDECAY0_DBD_GA_DATA_DIR", ga_saved.c_str(), 1);
+    else unsetenv("BXDECAY0_DBD_GA_DATA_DIR");
+    generator_body(3, true, "Se82", 0, 22, true); // and a gA generator with its dataset directory back in place
+  } else if (group == 7) {
+    // gA samplers used directly, rejection method, on tables of their own, at the same time
+    auto direct = [](int tid, const char * nuc, bxdecay0::dbd_gA::process_type pr, bxdecay0::dbd_gA::shooting_type sh) {
+      try {
+        bxdecay0::dbd_gA g;
+        g.set_nuclide(nuc);
+        g.set_process(pr);
+        g.set_shooting(sh);
+        g.initialize();
+        Rnd r;
+        r.phase = 300 + tid;
+        for (int k = 0; k < 200; k++) {
+          double e1, e2;
+          g.shoot_e1_e2(r, e1, e2);
+        }
+      } catch (std::exception & e) {
+        fprintf(stderr, "UNEXPECTED-EXCEPTION dbd_gA %s: %s\n", nuc, e.what());
+      }
+    };
+    std::vector<std::thread> th;
+    th.emplace_back(direct, 0, "Mo100", bxdecay0::dbd_gA::PROCESS_G0, bxdecay0::dbd_gA::SHOOTING_REJECTION);
+    th.emplace_back(direct, 1, "Se82", bxdecay0::dbd_gA::PROCESS_G2, bxdecay0::dbd_gA::SHOOTING_REJECTION);
+    th.emplace_back(direct, 2, "Nd150", bxdecay0::dbd_gA::PROCESS_G4, bxdecay0::dbd_gA::SHOOTING_REJECTION);
+    th.emplace_back(direct, 3, "Cd116", bxdecay0::dbd_gA::PROCESS_G22, bxdecay0::dbd_gA::SHOOTING_INVERSE_TRANSFORM_METHOD);
+    for (auto & t : th) t.join();
   } else if (group == 5) {
     // initialisations that run the nested quadratures (dgmlt1 over dgmlt2, gauss) at once: every mode whose spectrum needs
     // them (4, 5, 6, 8, 13, 15, 16, 19, and 10 with gauss alone), with and without an energy window
